@@ -113,6 +113,29 @@ def check(case, ctx):
     finally:
         sched.install(None)
 
+    # weight of the empty string per nonterminal, and the sub-language view cfg[X]
+    if case.get("rename") != "int":  # (the int renaming numbers symbols in order of first use)
+        from vf.build import renamer
+        from vf.cfgref import null
+
+        f = renamer(case.get("rename"))
+        nullw = null(G)
+        nw = ctx.call("null_weight", cfg.null_weight)
+        if not isinstance(nw, LibRaised):
+            for X in G.N:
+                ctx.eq("null_weight", M, nw[f(X)], nullw[X], what=f"X={X}")
+        ns = ctx.call("null_weight_start", cfg.null_weight_start)
+        ctx.eq("null_weight_start", M, ns, want[()], what="start")
+        heads = sorted({h for _, h, _ in G.rules}, key=repr)
+        if heads:
+            X = heads[(case.get("salt") or 0) % len(heads)]
+            sub_ = ctx.call("getitem", lambda: cfg[f(X)])
+            if not isinstance(sub_, LibRaised):
+                for xs in strings[:15]:
+                    have = ctx.call("getitem.call", sub_, xs)
+                    if not ctx.eq("getitem.call", M, have, ref(xs, X), what=f"cfg[{X}]({xs})"):
+                        break
+
     # tabulation
     for n in range(0, min(case.get("n", 3), 3) + 1):
         cnf = ctx.call("materialize.cnf", lambda: cfg.cnf)
